@@ -134,6 +134,11 @@ pub fn score_grid(ex: &Exact, step: f64) -> Vec<f32> {
     }
     q.push((ex.max() + 1.0) as f32);
     q.push((ex.max() + 100.0) as f32);
+    // scores far outside the range: their scaled value does not fit the integer types of the table look-up
+    for x in [1.0e7f32, 1.0e9, 1.0e12, f32::MAX] {
+        q.push(x);
+        q.push(-x);
+    }
     q.sort_by(|a, b| a.partial_cmp(b).unwrap());
     q.dedup();
     q
@@ -211,6 +216,8 @@ fn run_entry(e: &Entry, with_oracle: bool, rep: &mut Report, ctx: &mut Ctx) {
             let lo = pssm.min_score() as f64 - 1.0;
             let hi = pssm.max_score() as f64 + 1.0;
             let mut q: Vec<f32> = (0..=4000).map(|i| (lo + (hi - lo) * i as f64 / 4000.0) as f32).collect();
+            q.extend([-f32::MAX, -1.0e9, 1.0e9, f32::MAX]);
+            q.sort_by(|a, b| a.partial_cmp(b).unwrap());
             q.dedup();
             q
         }
@@ -256,7 +263,7 @@ pub fn run(ctx: &mut Ctx, rep: &mut Report) {
     let win = |_m: usize| 16usize;
     let entries = exact::menu(&widths, &win, &pseudos);
     let grid = format!(
-        "per matrix: sf() table (1 evaluation); scores: min-100, min-1, every distinct attainable score a (at most {} evenly ranked), a +- 1 step, a +- 1/2 step, max+1, max+100, as f32, sorted; \
+        "per matrix: sf() table (1 evaluation); scores: min-100, min-1, every distinct attainable score a (at most {} evenly ranked), a +- 1 step, a +- 1/2 step, max+1, max+100, +-1e7, +-1e9, +-1e12, +-f32::MAX, as f32, sorted; \
          p: exact tail values P(S >= a), arithmetic midpoints of adjacent ones, every distinct tabulated sf value and midpoints of adjacent ones, 1e-9, 1e-6, .5, .999, restricted to (0,1); \
          oracle: brute-force tail over all K'^M words, d = (M/2+1) steps, 1e-6 on probabilities; monotonicity and pvalue(score(p)) <= p exact; \
          one evaluation = one (matrix, background, query); non-trivial = min < score < max, resp. smallest tail < p < total mass",
@@ -266,7 +273,11 @@ pub fn run(ctx: &mut Ctx, rep: &mut Report) {
     rep.space("hand", &format!("product: {} ; {}", exact::hand_text(), grid));
     let mut next_index = 0u64;
     let mut capped_queries = false;
+    rep.note("matrices with a NaN wildcard column (a C12/C13 configuration: TFM-PVALUE never reads that column) are not given to the MEME-style table, which scales on the extreme cells of the whole matrix: NaN is not a score, so they are outside C11's domain");
     for e in &entries {
+        if e.mat.rows.iter().any(|r| r.iter().any(|x| x.is_nan())) {
+            continue;
+        }
         next_index = e.index + 1;
         if !ctx.mine(exact::shard_key(e.index)) {
             continue;
